@@ -27,6 +27,7 @@ LEVEL_TEXT = (
     "compilation in the history; once per fresh worker process a fixed set of relations is compiled twice in the same order."
     "  A quarter of the histories use two iteration engines only (every relation directly executable); step kind "
     "'aliens' constructs unrelated literal objects that compare equal to used ones (1 == 1.0 == True)."
+    "  Leaves of iteration-engine histories may hold a lazy stored payload (ChainRowIterable) whose operand list is part of the snapshot."
 )
 LEVEL_NOTE = "trusts: snapshot()/fingerprint() see everything the statement lists; histories <= 8 / 12 builds + <= 12 / 20 other steps"
 RULE = (
